@@ -597,6 +597,10 @@ func init() {
 		// runs at a time; the call is a schedule point like a lock operation is not
 		// needed for the frame argument) - through the write barrier, so a counter
 		// kept in a package-level variable is seen as the shared state it is
+		// context.WithCancel & co.: the channel-only model in package zzverif (interpreted from its SSA)
+		"context.WithCancel":   func(fr *frame, args []value) value { return fr.e.ctxModel(fr, args[:1]) },
+		"context.WithTimeout":  func(fr *frame, args []value) value { return fr.e.ctxModel(fr, args[:1]) },
+		"context.WithDeadline": func(fr *frame, args []value) value { return fr.e.ctxModel(fr, args[:1]) },
 		"sync/atomic.AddInt64":   func(fr *frame, args []value) value { return fr.e.atomicAdd(args, types.Typ[types.Int64]) },
 		"sync/atomic.AddInt32":   func(fr *frame, args []value) value { return fr.e.atomicAdd(args, types.Typ[types.Int32]) },
 		"sync/atomic.AddUint64":  func(fr *frame, args []value) value { return fr.e.atomicAdd(args, types.Typ[types.Uint64]) },
@@ -1060,4 +1064,15 @@ func (e *Engine) atomicAdd(args []value, t types.Type) value {
 	n := e.binop(token.ADD, t, *p, args[1])
 	e.store(t, p, n)
 	return n
+}
+
+func (e *Engine) ctxModel(fr *frame, args []value) value {
+	for _, p := range e.P.Prog.AllPackages() {
+		if strings.HasSuffix(p.Pkg.Path(), "/zzverif") {
+			if fn := p.Func("WithCancel"); fn != nil {
+				return e.callSSA(fr, token.NoPos, fn, args, nil)
+			}
+		}
+	}
+	panic(unsupported{"context.WithCancel: no model (package zzverif is not part of the program)"})
 }
